@@ -1,8 +1,8 @@
 /-
-  C14 helper: under the `!py` arrangement as it is now the evaluator never looks at (nor writes)
-  the raw dict slot `hidden` of the per-Context namespace object: evaluation commutes with replacing
-  it. Consequence: rehydrating the Context object (which rebuilds that object) is invisible to every
-  expression.
+  C14 helper: under the arrangements the code runs with now (`.evalFixed`, `.exec`) the evaluator
+  never looks at (nor writes) the raw dict slot `hidden` of the per-Context namespace object:
+  evaluation commutes with replacing it. Consequence: rebuilding that object (what rehydrating the
+  Context object does to it) is invisible to every expression.
 -/
 import Props.Lemmas.C14_Frame
 
@@ -14,22 +14,30 @@ def St.withHidden (h : Env) (st : St) : St := { st with hidden := h }
 variable (h : Env)
 
 @[simp] theorem withHidden_heap (st : St) : (st.withHidden h).heap = st.heap := rfl
+@[simp] theorem withHidden_cur (st : St) : (st.withHidden h).cur = st.cur := rfl
+@[simp] theorem withHidden_setCur (st : St) (k : Nat) :
+    (st.withHidden h).setCur k = (st.setCur k).withHidden h := rfl
 @[simp] theorem withHidden_alloc (st : St) (c : Cell) :
     ((st.withHidden h).alloc c).2 = (st.alloc c).2.withHidden h := rfl
+@[simp] theorem withHidden_heapSet (st : St) (r : Nat) (c : Cell) :
+    (st.withHidden h).heapSet r c = (st.heapSet r c).withHidden h := rfl
 @[simp] theorem withHidden_frameSet (st : St) (r : Nat) (x : String) (v : V) :
     (st.withHidden h).frameSet r x v = (st.frameSet r x v).withHidden h := by
   simp only [St.frameSet, withHidden_heap]; split <;> rfl
-@[simp] theorem withHidden_load (sc : Scope) (st : St) (x : String) :
-    load .evalFixed sc (st.withHidden h) x = load .evalFixed sc st x := rfl
-@[simp] theorem withHidden_store (sc : Scope) (st : St) (x : String) (v : V) :
-    store .evalFixed sc (st.withHidden h) x v = (store .evalFixed sc st x v).withHidden h := by
+@[simp] theorem withHidden_target (a : Arr) (st : St) (j : Nat) :
+    target a (st.withHidden h) j = target a st j := rfl
+theorem withHidden_load {a : Arr} (ha : a.live) (sc : Scope) (st : St) (x : String) :
+    load a sc (st.withHidden h) x = load a sc st x := by
+  rcases ha with ha | ha <;> subst ha <;> rfl
+theorem withHidden_store {a : Arr} (ha : a.live) (sc : Scope) (st : St) (x : String) (v : V) :
+    store a sc (st.withHidden h) x v = (store a sc st x v).withHidden h := by
   simp only [store, withHidden_heap]
   split
   · exact withHidden_frameSet h st _ x v
-  · rfl
+  · rcases ha with ha | ha <;> subst ha <;> rfl
   · split
-    · split <;> rfl
-    · rfl
+    · split <;> (rcases ha with ha | ha <;> subst ha <;> rfl)
+    · rcases ha with ha | ha <;> subst ha <;> rfl
     · simp only [St.clsSet, withHidden_heap]; split <;> rfl
 @[simp] theorem withHidden_doAppend (st : St) (t w : V) :
     doAppend (st.withHidden h) t w = (doAppend st t w).withHidden h := by
@@ -37,6 +45,12 @@ variable (h : Env)
   split
   · split <;> rfl
   · rfl
+
+theorem withHidden_doSetItem (st : St) (t : V) (i : Nat) (w : V) :
+    doSetItem (st.withHidden h) t i w = ((doSetItem st t i w).1, (doSetItem st t i w).2.withHidden h) := by
+  simp only [doSetItem, withHidden_heap]
+  repeat' split
+  all_goals rfl
 
 end Pypyr.PyNs
 
@@ -47,52 +61,66 @@ def lift {β : Type} (h : Env) (p : β × St) : β × St := (p.1, p.2.withHidden
 
 @[simp] theorem lift_mk {β : Type} (h : Env) (b : β) (st : St) : lift h (b, st) = (b, st.withHidden h) := rfl
 
+theorem withHidden_nsopApply (h : Env) {a : Arr} (ha : a.live) (st : St) (m : NsMeth) (k : String) (w : V) :
+    nsopApply a (st.withHidden h) m k w = lift h (nsopApply a st m k w) := by
+  rcases ha with ha | ha <;> subst ha <;> rfl
+
 theorem eval_hidden (h : Env) : ∀ fuel,
-    (∀ sc e st, evalExpr .evalFixed fuel sc e (st.withHidden h) = lift h (evalExpr .evalFixed fuel sc e st)) ∧
-    (∀ sc es st, evalList .evalFixed fuel sc es (st.withHidden h) = lift h (evalList .evalFixed fuel sc es st)) ∧
-    (∀ sc cs st, evalConds .evalFixed fuel sc cs (st.withHidden h) = lift h (evalConds .evalFixed fuel sc cs st)) ∧
-    (∀ sc fr elt t cs rest src i acc st,
-      compLoop .evalFixed fuel sc fr elt t cs rest src i acc (st.withHidden h) =
-        lift h (compLoop .evalFixed fuel sc fr elt t cs rest src i acc st)) ∧
-    (∀ ex bs vf vs st, callFn .evalFixed fuel ex bs vf vs (st.withHidden h) =
-        lift h (callFn .evalFixed fuel ex bs vf vs st)) ∧
-    (∀ sc body st, runBody .evalFixed fuel sc body (st.withHidden h) =
-        lift h (runBody .evalFixed fuel sc body st)) := by
+    (∀ a, a.live → ∀ sc e st, evalExpr a fuel sc e (st.withHidden h) = lift h (evalExpr a fuel sc e st)) ∧
+    (∀ a, a.live → ∀ sc es st, evalList a fuel sc es (st.withHidden h) = lift h (evalList a fuel sc es st)) ∧
+    (∀ a, a.live → ∀ sc cs st, evalConds a fuel sc cs (st.withHidden h) = lift h (evalConds a fuel sc cs st)) ∧
+    (∀ a, a.live → ∀ sc fr elt t cs rest src i acc st,
+      compLoop a fuel sc fr elt t cs rest src i acc (st.withHidden h) =
+        lift h (compLoop a fuel sc fr elt t cs rest src i acc st)) ∧
+    (∀ a, a.live → ∀ ex vf vs st, callFn a fuel ex vf vs (st.withHidden h) =
+        lift h (callFn a fuel ex vf vs st)) ∧
+    (∀ a, a.live → ∀ sc body st, runBody a fuel sc body (st.withHidden h) =
+        lift h (runBody a fuel sc body st)) ∧
+    (∀ a, a.live → ∀ sc fr elt cls stack st, genLoop a fuel sc fr elt cls stack (st.withHidden h) =
+        lift h (genLoop a fuel sc fr elt cls stack st)) ∧
+    (∀ a, a.live → ∀ r st, pullGen a fuel r (st.withHidden h) = lift h (pullGen a fuel r st)) ∧
+    (∀ a, a.live → ∀ r acc st, drainGen a fuel r acc (st.withHidden h) = lift h (drainGen a fuel r acc st)) := by
   intro fuel
   induction fuel with
   | zero =>
-    refine ⟨?_, ?_, ?_, ?_, ?_, ?_⟩ <;> intros <;> simp [evalExpr, evalList, evalConds, compLoop, callFn, runBody]
+    refine ⟨?_, ?_, ?_, ?_, ?_, ?_, ?_, ?_, ?_⟩ <;> intros <;>
+      simp [evalExpr, evalList, evalConds, compLoop, callFn, runBody, genLoop, pullGen, drainGen]
   | succ n ih =>
-    obtain ⟨ihE, ihL, ihC, ihLoop, ihCall, ihBody⟩ := ih
-    refine ⟨?_, ?_, ?_, ?_, ?_, ?_⟩
-    · intro sc e st
+    obtain ⟨ihE, ihL, ihC, ihLoop, ihCall, ihBody, ihGen, ihPull, ihDrain⟩ := ih
+    refine ⟨?_, ?_, ?_, ?_, ?_, ?_, ?_, ?_, ?_⟩
+    · intro a ha sc e st
+      have ihE := ihE a ha
+      have ihL := ihL a ha
+      have ihCall := ihCall a ha
+      have ihLoop := ihLoop a ha
+      have ihDrain := ihDrain a ha
       unfold evalExpr
       cases e with
-      | name x => simp
+      | name x => simp [withHidden_load h ha]
       | const n => simp
       | walrus x e1 =>
         simp only [ihE]
-        rcases hh : evalExpr .evalFixed n sc e1 st with ⟨r, st1⟩
-        cases r <;> simp
+        rcases hh : evalExpr a n sc e1 st with ⟨r, st1⟩
+        cases r <;> simp [withHidden_store h ha]
       | tuple es =>
         simp only [ihL]
-        rcases hh : evalList .evalFixed n sc es st with ⟨r, st1⟩
+        rcases hh : evalList a n sc es st with ⟨r, st1⟩
         cases r <;> simp [lift, St.alloc, St.withHidden]
       | lam ps body => simp [lift, St.alloc, St.withHidden]
       | call f args =>
         simp only [ihE]
-        rcases hh : evalExpr .evalFixed n sc f st with ⟨r, st1⟩
+        rcases hh : evalExpr a n sc f st with ⟨r, st1⟩
         cases r with
         | err er => simp
         | ok vf =>
           simp only [lift_mk, ihL]
-          rcases hh2 : evalList .evalFixed n sc args st1 with ⟨r2, st2⟩
+          rcases hh2 : evalList a n sc args st1 with ⟨r2, st2⟩
           cases r2 with
           | err er => simp
           | ok vs => simp only [lift_mk, ihCall]
       | append t e1 =>
         simp only [ihE]
-        rcases hh : evalExpr .evalFixed n sc t st with ⟨r, st1⟩
+        rcases hh : evalExpr a n sc t st with ⟨r, st1⟩
         cases r with
         | err er => simp
         | ok vt =>
@@ -101,7 +129,7 @@ theorem eval_hidden (h : Env) : ∀ fuel,
           | some er => simp
           | none =>
             simp only [ihE]
-            rcases hh2 : evalExpr .evalFixed n sc e1 st1 with ⟨r2, st2⟩
+            rcases hh2 : evalExpr a n sc e1 st1 with ⟨r2, st2⟩
             cases r2 <;> simp
       | comp gen elt clauses =>
         cases clauses with
@@ -109,7 +137,7 @@ theorem eval_hidden (h : Env) : ∀ fuel,
         | cons c rest =>
           obtain ⟨t1, it1, cs1⟩ := c
           simp only [ihE]
-          rcases hh : evalExpr .evalFixed n sc it1 st with ⟨r, st1⟩
+          rcases hh : evalExpr a n sc it1 st with ⟨r, st1⟩
           cases r with
           | err er => simp
           | ok src =>
@@ -118,29 +146,91 @@ theorem eval_hidden (h : Env) : ∀ fuel,
             | some er => simp
             | none =>
               simp only [withHidden_alloc, ihLoop]
-              rcases hh2 : compLoop .evalFixed n { sc with kind := _, chain := _ } st1.heap.length elt t1 cs1 rest src 0 []
+              rcases hh2 : compLoop a n { sc with kind := _, chain := _ } st1.heap.length elt t1 cs1 rest src 0 []
                 (st1.alloc (.frame { declared := t1 :: rest.map (·.1), globals := [], isComp := true, vars := [] })).2 with ⟨r2, st3⟩
               cases r2 <;> simp [lift, St.alloc, St.withHidden]
-    · intro sc es st
+      | gen elt clauses =>
+        cases clauses with
+        | nil => simp
+        | cons c rest =>
+          obtain ⟨t1, it1, cs1⟩ := c
+          simp only [ihE]
+          rcases hh : evalExpr a n sc it1 st with ⟨r, st1⟩
+          cases r with
+          | err er => simp
+          | ok src =>
+            simp only [lift_mk, withHidden_heap]
+            cases iterable st1.heap src with
+            | some er => simp
+            | none => simp [lift, St.alloc, St.withHidden]
+      | drain e1 =>
+        simp only [ihE]
+        rcases hh : evalExpr a n sc e1 st with ⟨r, st1⟩
+        cases r with
+        | err er => simp
+        | ok v =>
+          simp only [lift_mk, withHidden_heap]
+          split
+          · simp only [ihDrain]
+            rename_i r _
+            rcases hh2 : drainGen a n r [] st1 with ⟨r2, st2⟩
+            cases r2 <;> simp [lift, St.alloc, St.withHidden]
+          · cases iterable st1.heap v with
+            | some er => simp
+            | none =>
+              simp only []
+              cases seqItems st1.heap v <;> simp [lift, St.alloc, St.withHidden]
+      | setitem t i e1 =>
+        simp only [ihE]
+        rcases hh : evalExpr a n sc t st with ⟨r, st1⟩
+        cases r with
+        | err er => simp
+        | ok vt =>
+          simp only [lift_mk, withHidden_heap]
+          cases itemSettable st1.heap vt with
+          | some er => simp
+          | none =>
+            simp only [ihE]
+            rcases hh2 : evalExpr a n sc e1 st1 with ⟨r2, st2⟩
+            cases r2 with
+            | err er => simp
+            | ok w =>
+              simp only [lift_mk, withHidden_doSetItem]
+              rcases hh3 : doSetItem st2 vt i w with ⟨r3, st3⟩
+              cases r3 <;> simp
+      | nsop m k e1 =>
+        simp only []
+        split
+        · simp only [ihE]
+          rcases hh : evalExpr a n sc e1 st with ⟨r, st1⟩
+          cases r with
+          | err er => simp
+          | ok w => simp only [lift_mk, withHidden_nsopApply h ha]
+        · exact withHidden_nsopApply h ha _ _ _ _
+    · intro a ha sc es st
+      have ihE := ihE a ha
+      have ihL := ihL a ha
       unfold evalList
       cases es with
       | nil => simp
       | cons e rest =>
         simp only [ihE]
-        rcases hh : evalExpr .evalFixed n sc e st with ⟨r, st1⟩
+        rcases hh : evalExpr a n sc e st with ⟨r, st1⟩
         cases r with
         | err er => simp
         | ok v =>
           simp only [lift_mk, ihL]
-          rcases hh2 : evalList .evalFixed n sc rest st1 with ⟨r2, st2⟩
+          rcases hh2 : evalList a n sc rest st1 with ⟨r2, st2⟩
           cases r2 <;> simp
-    · intro sc cs st
+    · intro a ha sc cs st
+      have ihE := ihE a ha
+      have ihC := ihC a ha
       unfold evalConds
       cases cs with
       | nil => simp
       | cons c rest =>
         simp only [ihE]
-        rcases hh : evalExpr .evalFixed n sc c st with ⟨r, st1⟩
+        rcases hh : evalExpr a n sc c st with ⟨r, st1⟩
         cases r with
         | err er => simp
         | ok v =>
@@ -148,14 +238,17 @@ theorem eval_hidden (h : Env) : ∀ fuel,
           by_cases ht : truthy st1.heap v = true
           · simp only [ht, if_true]; exact ihC _ _ _
           · simp [ht]
-    · intro sc fr elt t cs rest src i acc st
+    · intro a ha sc fr elt t cs rest src i acc st
+      have ihE := ihE a ha
+      have ihC := ihC a ha
+      have ihLoop := ihLoop a ha
       unfold compLoop
       simp only [withHidden_heap]
       cases elemAt st.heap src i with
       | none => simp
       | some v =>
         simp only [withHidden_frameSet, ihC]
-        rcases hh : evalConds .evalFixed n sc cs (st.frameSet fr t v) with ⟨r, st2⟩
+        rcases hh : evalConds a n sc cs (st.frameSet fr t v) with ⟨r, st2⟩
         cases r with
         | err er => simp
         | ok b =>
@@ -166,14 +259,14 @@ theorem eval_hidden (h : Env) : ∀ fuel,
             cases rest with
             | nil =>
               simp only [ihE]
-              rcases hh2 : evalExpr .evalFixed n sc elt st2 with ⟨r2, st3⟩
+              rcases hh2 : evalExpr a n sc elt st2 with ⟨r2, st3⟩
               cases r2 with
               | err er => simp
               | ok w => simp only [lift_mk]; exact ihLoop _ _ _ _ _ _ _ _ _ _
             | cons c2 rest2 =>
               obtain ⟨t2, it2, cs2⟩ := c2
               simp only [ihE]
-              rcases hh2 : evalExpr .evalFixed n sc it2 st2 with ⟨r2, st3⟩
+              rcases hh2 : evalExpr a n sc it2 st2 with ⟨r2, st3⟩
               cases r2 with
               | err er => simp
               | ok src2 =>
@@ -182,36 +275,129 @@ theorem eval_hidden (h : Env) : ∀ fuel,
                 | some er => simp
                 | none =>
                   simp only [ihLoop]
-                  rcases hh3 : compLoop .evalFixed n sc fr elt t2 cs2 rest2 src2 0 acc st3 with ⟨r3, st4⟩
+                  rcases hh3 : compLoop a n sc fr elt t2 cs2 rest2 src2 0 acc st3 with ⟨r3, st4⟩
                   cases r3 with
                   | err er => simp
                   | ok acc2 => simp only [lift_mk]; exact ihLoop _ _ _ _ _ _ _ _ _ _
-    · intro ex bs vf vs st
+    · intro a ha ex vf vs st
       unfold callFn
-      simp only [withHidden_heap]
-      cases callee st.heap bs vf with
+      simp only [withHidden_heap, withHidden_target]
+      cases callee st.heap vf with
       | bad er => simp
       | clo c =>
         simp only []
-        split
-        · simp
-        · simp only [withHidden_alloc, ihBody]
-          rcases hh : runBody .evalFixed n { kind := .func, chain := st.heap.length :: c.chain, explicit := ex, base := bs } c.body
-            (st.alloc (.frame { declared := fnDeclared c.params c.globals c.body c.ret, globals := c.globals,
-                                isComp := false, vars := c.params.zip vs })).2 with ⟨r, st2⟩
-          cases r with
-          | err er => simp
-          | ok u => simp only [lift_mk]; exact ihE _ _ _
-    · intro sc body st
+        cases htg : target a st c.ns with
+        | none => simp
+        | some a' =>
+          have ha' := target_live ha _ _ htg
+          have ihE := ihE a' ha'
+          have ihBody := ihBody a' ha'
+          simp only []
+          split
+          · simp
+          · simp only [withHidden_setCur, withHidden_alloc, ihBody, withHidden_cur]
+            generalize runBody a' n _ c.body _ = res
+            obtain ⟨r, st2⟩ := res
+            cases r with
+            | err er => simp
+            | ok u =>
+              simp only [lift_mk, ihE]
+              rfl
+    · intro a ha sc body st
+      have ihE := ihE a ha
+      have ihBody := ihBody a ha
       unfold runBody
       cases body with
       | nil => simp
       | cons p rest =>
         obtain ⟨x, e⟩ := p
         simp only [ihE]
-        rcases hh : evalExpr .evalFixed n sc e st with ⟨r, st1⟩
+        rcases hh : evalExpr a n sc e st with ⟨r, st1⟩
         cases r with
         | err er => simp
-        | ok v => simp only [lift_mk, withHidden_store]; exact ihBody _ _ _
+        | ok v => simp only [lift_mk, withHidden_store h ha]; exact ihBody _ _ _
+    · intro a ha sc fr elt cls stack st
+      have ihE := ihE a ha
+      have ihC := ihC a ha
+      have ihGen := ihGen a ha
+      unfold genLoop
+      cases stack with
+      | nil => simp
+      | cons top below =>
+        obtain ⟨src, i⟩ := top
+        simp only [withHidden_heap]
+        cases cls[below.length]? with
+        | none => simp
+        | some cl =>
+          obtain ⟨t, it, cs⟩ := cl
+          simp only []
+          cases elemAt st.heap src i with
+          | none => simp only []; exact ihGen _ _ _ _ _ _
+          | some v =>
+            simp only [withHidden_frameSet, ihC]
+            rcases hh : evalConds a n sc cs (st.frameSet fr t v) with ⟨r, st2⟩
+            cases r with
+            | err er => simp
+            | ok b =>
+              cases b with
+              | false => simp only [lift_mk]; exact ihGen _ _ _ _ _ _
+              | true =>
+                simp only [lift_mk]
+                cases cls[below.length + 1]? with
+                | none =>
+                  simp only [ihE]
+                  rcases hh2 : evalExpr a n sc elt st2 with ⟨r2, st3⟩
+                  cases r2 <;> simp
+                | some cl2 =>
+                  obtain ⟨t2, it2, cs2⟩ := cl2
+                  simp only [ihE]
+                  rcases hh2 : evalExpr a n sc it2 st2 with ⟨r2, st3⟩
+                  cases r2 with
+                  | err er => simp
+                  | ok src2 =>
+                    simp only [lift_mk, withHidden_heap]
+                    cases iterable st3.heap src2 with
+                    | some er => simp
+                    | none => simp only []; exact ihGen _ _ _ _ _ _
+    · intro a ha r st
+      unfold pullGen
+      simp only [withHidden_heap, withHidden_target]
+      cases hc : st.heap[r]? with
+      | none => simp
+      | some cell =>
+        cases cell with
+        | gen g =>
+          simp only []
+          cases g.status with
+          | done => simp
+          | running => simp
+          | suspended =>
+            simp only []
+            cases htg : target a st g.ns with
+            | none => simp
+            | some a' =>
+              have ha' := target_live ha _ _ htg
+              have ihGen := ihGen a' ha'
+              simp only [withHidden_setCur, withHidden_heapSet, ihGen, withHidden_cur]
+              generalize genLoop a' n _ g.frame g.elt g.clauses g.stack _ = res0
+              obtain ⟨res, st1⟩ := res0
+              cases res with
+              | err er => simp
+              | ok p =>
+                obtain ⟨o, stk⟩ := p
+                cases o <;> simp
+        | _ => simp
+    · intro a ha r acc st
+      have ihPull := ihPull a ha
+      have ihDrain := ihDrain a ha
+      unfold drainGen
+      simp only [ihPull]
+      rcases hh : pullGen a n r st with ⟨res, st1⟩
+      cases res with
+      | err er => simp
+      | ok o =>
+        cases o with
+        | none => simp
+        | some w => simp only [lift_mk]; exact ihDrain _ _ _
 
 end Pypyr.PyNs
